@@ -23,6 +23,9 @@ type c05path struct {
 	Shutdown  bool     `json:"remote_write_interrupted_by_shutdown"`
 	// FailRemLog: the remote node is reachable and answers, but its log refuses the append (disk full)
 	FailRemLog bool `json:"remote_log_fails,omitempty"`
+	// Retain: every PUBLISH of the script carries the retain flag (storing the retained copy is a second side effect of
+	// the same publish; its success says nothing about the destinations' logs)
+	Retain bool `json:"retain_flag,omitempty"`
 }
 
 // rel-namesake: a client of another mount point that uses the same client identifier as the publisher releases the
@@ -75,9 +78,20 @@ func c05paths() []c05path {
 		{"both", false, false}, {"both", true, false}, {"both", false, true}, {"both", true, true}}
 	for _, c := range combos {
 		for _, s := range seqs {
-			out = append(out, c05path{c.pl, c.fl, c.fr, 0, s, false, false})
+			out = append(out, c05path{c.pl, c.fl, c.fr, 0, s, false, false, false})
 			if vk.Thorough() && (c.fl || c.fr) && len(s) >= 2 {
-				out = append(out, c05path{c.pl, c.fl, c.fr, 1, s, false, false})
+				out = append(out, c05path{c.pl, c.fl, c.fr, 1, s, false, false, false})
+			}
+		}
+	}
+	// the same publishes with the retain flag, under each write fault
+	for _, c := range combos {
+		if !c.fl && !c.fr {
+			continue
+		}
+		for _, s := range seqs {
+			if len(s) <= 2 {
+				out = append(out, c05path{Placement: c.pl, FailLocal: c.fl, FailRem: c.fr, Events: s, Retain: true})
 			}
 		}
 	}
@@ -92,14 +106,14 @@ func c05paths() []c05path {
 	// two remote destination nodes (three nodes): every one of them must have the message before the acknowledgement
 	for _, fr := range []bool{false, true} {
 		for _, s := range [][]string{{"pub1"}, {"pub0", "pub1"}, {"pub2", "rel-pending"}, {"pub1", "pub1-repeat-dup"}, {"pub1", "pub2", "rel-pending"}} {
-			out = append(out, c05path{"two-remotes", false, fr, 0, s, false, false})
-			out = append(out, c05path{"local+two-remotes", false, fr, 0, s, false, false})
+			out = append(out, c05path{"two-remotes", false, fr, 0, s, false, false, false})
+			out = append(out, c05path{"local+two-remotes", false, fr, 0, s, false, false, false})
 		}
 	}
 	// the publishing node is stopped while the remote write of the last event is in flight
 	for _, pl := range []string{"remote", "both"} {
 		for _, s := range [][]string{{"pub1"}, {"pub0", "pub1"}, {"pub2", "rel-pending"}, {"pub1", "pub2", "rel-pending"}} {
-			out = append(out, c05path{pl, false, false, 0, s, true, false})
+			out = append(out, c05path{pl, false, false, 0, s, true, false, false})
 		}
 	}
 	return out
@@ -118,8 +132,18 @@ func TestC05StoreBeforeAck(t *testing.T) {
 				w := NewWorld(t, nn)
 				defer w.Close()
 				viol := func(sig, format string, a ...any) {
-					rep.Violate(vk.Violation{Sig: sig, Msg: fmt.Sprintf("subscribers=%s localFail=%v remoteFail=%v remoteLogFail=%v from event %d, script %v: ", p.Placement, p.FailLocal, p.FailRem, p.FailRemLog, p.FaultFrom, p.Events) + fmt.Sprintf(format, a...), Replay: p})
+					rep.Violate(vk.Violation{Sig: sig, Msg: fmt.Sprintf("subscribers=%s localFail=%v remoteFail=%v remoteLogFail=%v retain=%v from event %d, script %v: ", p.Placement, p.FailLocal, p.FailRem, p.FailRemLog, p.Retain, p.FaultFrom, p.Events) + fmt.Sprintf(format, a...), Replay: p})
 				}
+				// the publisher is there first and publishes the topic once while nobody is subscribed anywhere (whatever the node
+				// remembers about the topic's destinations must not outlive the arrival of a subscriber)
+				pub := w.NewClient("pub", 1, AckNone)
+				if pub.Connect(ConnectOpts{ClientID: "pub", KeepAlive: 600}) != 0 {
+					rep.HarnessError("connect failed")
+					return
+				}
+				w.Step()
+				pub.Publish("t/x", "before-anybody-subscribed", 0, false, 0)
+				w.Step()
 				var dest []uint64
 				if p.Placement == "local" || p.Placement == "both" || p.Placement == "local+two-remotes" {
 					c := w.NewClient("sub-local", 1, AckAll)
@@ -145,11 +169,7 @@ func TestC05StoreBeforeAck(t *testing.T) {
 				by := w.NewClient("bystander", 2, AckAll)
 				by.Connect(ConnectOpts{ClientID: "bystander", KeepAlive: 600})
 				by.Subscribe(1, 1, "other/#")
-				pub := w.NewClient("pub", 1, AckNone)
-				if pub.Connect(ConnectOpts{ClientID: "pub", KeepAlive: 600}) != 0 {
-					rep.HarnessError("connect failed")
-					return
-				}
+
 				w.Step()
 				// same client identifier as the publisher, other mount point: a different client altogether
 				twin := w.NewClient("namesake", 1, AckNone)
@@ -217,7 +237,7 @@ func TestC05StoreBeforeAck(t *testing.T) {
 					switch {
 					case ev == "pub0":
 						e := &pubEv{qos: 0, payload: fmt.Sprintf("m%d", k), faulty: faultsOn && len(dest) > 0 && ((p.FailLocal && has(dest, 1)) || ((p.FailRem || p.FailRemLog) && has(dest, 2)))}
-						pub.Publish("t/x", e.payload, 0, false, 0)
+						pub.Publish("t/x", e.payload, 0, p.Retain, 0)
 						expectForward, fwdPayload = true, e.payload
 					case strings.HasPrefix(ev, "pub1"):
 						e := &pubEv{qos: 1, payload: fmt.Sprintf("m%d", k)}
@@ -232,7 +252,7 @@ func TestC05StoreBeforeAck(t *testing.T) {
 						}
 						e.faulty = (faultsOn && ((p.FailLocal && has(dest, 1)) || ((p.FailRem || p.FailRemLog) && has(dest, 2)))) || shutdownFaulty(k)
 						e.seqSent = w.Seq()
-						pub.Send(&packet.Publish{Header: &packet.Header{Qos: 1, Dup: strings.HasSuffix(ev, "dup")}, Topic: []byte("t/x"), Payload: []byte(e.payload), MessageId: e.id})
+						pub.Send(&packet.Publish{Header: &packet.Header{Qos: 1, Dup: strings.HasSuffix(ev, "dup"), Retain: p.Retain}, Topic: []byte("t/x"), Payload: []byte(e.payload), MessageId: e.id})
 						pubs = append(pubs, e)
 						last1 = e
 						expectForward, fwdPayload = true, e.payload
@@ -250,7 +270,7 @@ func TestC05StoreBeforeAck(t *testing.T) {
 						}
 						if strings.Contains(ev, "repeat") && pendingSame {
 							// retransmission of the same message while its handshake is pending: same identifier, same payload
-							pub.Send(&packet.Publish{Header: &packet.Header{Qos: 2, Dup: strings.HasSuffix(ev, "dup")}, Topic: []byte("t/x"), Payload: []byte(last2.payload), MessageId: last2.id})
+							pub.Send(&packet.Publish{Header: &packet.Header{Qos: 2, Dup: strings.HasSuffix(ev, "dup"), Retain: p.Retain}, Topic: []byte("t/x"), Payload: []byte(last2.payload), MessageId: last2.id})
 						} else {
 							// a fresh handshake; "repeat" after the earlier handshake ended (completed, failed or
 							// timed out) legitimately reuses its identifier for a new message
@@ -262,7 +282,7 @@ func TestC05StoreBeforeAck(t *testing.T) {
 								e.id = nextID
 							}
 							e.seqSent = w.Seq()
-							pub.Send(&packet.Publish{Header: &packet.Header{Qos: 2, Dup: strings.HasSuffix(ev, "dup")}, Topic: []byte("t/x"), Payload: []byte(e.payload), MessageId: e.id})
+							pub.Send(&packet.Publish{Header: &packet.Header{Qos: 2, Dup: strings.HasSuffix(ev, "dup"), Retain: p.Retain}, Topic: []byte("t/x"), Payload: []byte(e.payload), MessageId: e.id})
 							pubs = append(pubs, e)
 							last2 = e
 							if sessionAlive {
